@@ -1,4 +1,5 @@
 import Driver.Tok
 import Driver.LuCheck
 import Driver.PivotEng
+import Driver.FactorEng
 import Driver.Main
